@@ -1016,3 +1016,164 @@ func predicateMisses(p *Program, cal *ssa.Function) string {
 	}
 	return strings.Join(missing, ", ")
 }
+
+// ---------------------------------------------------------------------------
+// R-NO-ELEMENT-CACHE (C08): the element list is the single source of truth for what is in the body.
+// A Document field that points at a body element (a remembered section-properties object, a "last
+// paragraph") goes stale as soon as that element is removed or replaced through the list, and
+// later calls then write to an object that is no longer in the document.  Decided on the type:
+// no field of Document other than Body may reach a body element kind.
+// ---------------------------------------------------------------------------
+
+func ruleNoElementCache(r *Run) {
+	p := r.P
+	doc := p.Named(pkgDoc, "Document")
+	if doc == nil {
+		r.Unresolved("document.Document")
+		return
+	}
+	kinds := bodyKinds(p)
+	st := doc.Underlying().(*types.Struct)
+	n := 0
+	for i := 0; i < st.NumFields(); i++ {
+		f := st.Field(i)
+		if f.Name() == "Body" {
+			continue
+		}
+		n++
+		hit := ""
+		seen := map[types.Type]bool{}
+		var walk func(t types.Type, depth int)
+		walk = func(t types.Type, depth int) {
+			if seen[t] || depth > 3 || hit != "" {
+				return
+			}
+			seen[t] = true
+			switch x := t.(type) {
+			case *types.Pointer:
+				walk(x.Elem(), depth)
+			case *types.Slice:
+				walk(x.Elem(), depth)
+			case *types.Array:
+				walk(x.Elem(), depth)
+			case *types.Map:
+				walk(x.Elem(), depth)
+			case *types.Named:
+				if _, isKind := kinds[x]; isKind {
+					hit = typeName(x)
+					return
+				}
+				// one level into the document's own helper structs (managers) only
+				if sn := isModStruct(p, x); sn != nil && sn.Obj().Pkg().Path() == pkgDoc && depth < 1 {
+					su := sn.Underlying().(*types.Struct)
+					for j := 0; j < su.NumFields(); j++ {
+						walk(su.Field(j).Type(), depth+1)
+					}
+				}
+			}
+		}
+		walk(f.Type(), 0)
+		r.Trivial("no-element-cache", "Document."+f.Name(), f.Pos(), hit == "",
+			fmt.Sprintf("field Document.%s %s", f.Name(), map[bool]string{true: "does not point at body elements", false: "can hold a " + hit + " outside Body.Elements: after the element is removed from (or replaced in) the list, calls that use this field write to an object that is not part of the document any more"}[hit == ""]))
+	}
+	r.Min("document_fields", n, 7)
+}
+
+// ---------------------------------------------------------------------------
+// R-LOOP-FRESH (C09): a cell, row, paragraph or run that is inserted into a table inside a loop must
+// be constructed inside that loop.  Appending one struct value several times makes the inserted
+// elements share its pointers (cell properties) and slice backing arrays (paragraphs): writing one
+// restored cell then changes its siblings.
+// ---------------------------------------------------------------------------
+
+func ruleLoopFresh(r *Run) {
+	p := r.P
+	n := 0
+	for _, fn := range p.ModFuncs() {
+		if fn.Pkg == nil || fn.Pkg.Pkg.Path() != pkgDoc || fn.Parent() != nil {
+			continue
+		}
+		if fn.Signature.Recv() == nil || !typeIs(fn.Signature.Recv().Type(), pkgDoc, "Table") {
+			if !strings.Contains(fn.Name(), "Table") {
+				continue
+			}
+		}
+		loops := naturalLoops(fn)
+		if len(loops) == 0 {
+			continue
+		}
+		idx := 0
+		allInstrs(fn, func(in ssa.Instruction) {
+			var elems []ssa.Value
+			switch x := in.(type) {
+			case *ssa.Call:
+				if b, ok := x.Call.Value.(*ssa.Builtin); ok && b.Name() == "append" && len(x.Call.Args) > 1 {
+					elems = varargElems(x.Call.Args[1])
+				}
+			case *ssa.Store:
+				if _, ok := x.Addr.(*ssa.IndexAddr); ok {
+					elems = []ssa.Value{x.Val}
+				}
+			}
+			for _, e := range elems {
+				if e == nil {
+					continue
+				}
+				sn := isModStruct(p, e.Type())
+				if sn == nil || !isPointerLike(e.Type()) {
+					continue
+				}
+				if _, isPtr := e.Type().Underlying().(*types.Pointer); isPtr {
+					continue
+				}
+				// innermost loop containing the insertion
+				var l *natLoop
+				for _, cand := range loops {
+					if cand.Body[in.Block()] && (l == nil || len(cand.Body) < len(l.Body)) {
+						l = cand
+					}
+				}
+				if l == nil {
+					continue
+				}
+				idx++
+				n++
+				// where is the inserted value made?
+				invariant := false
+				switch v := e.(type) {
+				case *ssa.UnOp:
+					if al, ok := v.X.(*ssa.Alloc); ok && v.Op == token.MUL {
+						// a local struct variable: invariant if nothing stores to it inside the loop
+						inside := l.Body[al.Block()]
+						if al.Referrers() != nil {
+							for _, u := range *al.Referrers() {
+								switch w := u.(type) {
+								case *ssa.Store:
+									if l.Body[w.Block()] {
+										inside = true
+									}
+								case *ssa.FieldAddr, *ssa.IndexAddr:
+									if uv, ok := u.(ssa.Value); ok && uv.Referrers() != nil {
+										for _, u2 := range *uv.Referrers() {
+											if st, ok := u2.(*ssa.Store); ok && l.Body[st.Block()] {
+												inside = true
+											}
+										}
+									}
+								}
+							}
+						}
+						invariant = !inside
+					}
+				default:
+					if ins, ok := e.(ssa.Instruction); ok {
+						invariant = !l.Body[ins.Block()]
+					}
+				}
+				r.Check("loop-fresh", fmt.Sprintf("%s#%d:%s", shortName(fn), idx, sn.Obj().Name()), in.Pos(), !invariant,
+					fmt.Sprintf("%s inserts a %s inside a loop; the value %s", shortName(fn), typeName(sn), map[bool]string{false: "is built in the loop (each inserted element has its own properties and content)", true: "is built once outside the loop, so every inserted element shares its property pointers and paragraph storage: editing one of them changes the others"}[invariant]))
+			}
+		})
+	}
+	r.Min("struct_insertions_in_table_loops", n, 5)
+}
